@@ -67,6 +67,8 @@ class Ctx:
 
     # oracle -----------------------------------------------------------------------------------------
     def fail(self, clause, msg=""):
+        if callable(msg):
+            msg = msg()
         if clause in self.suppressed:
             self.suppressed_hits[clause] += 1
             return
